@@ -401,6 +401,10 @@ try:
         tt = rng.standard_normal((len(tx), numsamples))
         if cplx:
             tt = tt + 1j * rng.standard_normal((len(tx), numsamples))
+        if _das_count[0] % 3 == 0:
+            # a few samples marked invalid (NaN) by the acquisition: inputs all the same, never to be modified
+            tt[rng.integers(0, len(tx), 2), rng.integers(0, numsamples, 2)] = np.nan
+            chk.count(das_samples="with NaN samples")
         dt, t0 = 0.5, 0.25
         frame = arim.Frame(np.ascontiguousarray(tt), arim.Time(t0, dt, numsamples), tx, rx,
                            arim.Probe.make_matrix_probe(numel, 1e-3, 1, np.nan, 1e6), arim.ExaminationObject(None))
